@@ -28,6 +28,7 @@ def run(tier, repo=None, procs=16):
             for k in ("n", "same", "dropped"):
                 tot[k] += r[k]
             tot["attention"] += r["attention"]
+            tot["skipped"] = tot.get("skipped", 0) + r.get("skipped", 0)
             for k, v in r["per_how"].items():
                 tot["per_how"][k] = tot["per_how"].get(k, 0) + v
         tot.update(config=c, tlc=stats, vectors=len(lines))
@@ -36,11 +37,11 @@ def run(tier, repo=None, procs=16):
     for oi, out in enumerate(outcomes):
         for ai, att in enumerate(out["attention"]):
             o = att["obs"]
-            if o.get("build_failed") or "raised" in o or "post" not in o:
+            if o.get("build_failed") or "raised" in o or "post" not in o or "after" not in o:
                 continue
             ident = "%d.%d" % (oi, ai)
             events.append({"id": ident, "pre": o["pre"], "post": o["post"], "after": o["after"], "n": o["n"], "result": o["result"],
-                           "bij": o["bij"], "root": o["root"]})
+                           "bij": o["bij"], "root": o["root"], "mut": o["mut"], "leaf": o["leaf"], "extra": o["extra"]})
             index[ident] = att
     if events:
         verdicts, _ = judge.run_judge("TraceClone", events[:3000], {"Nil": "Nil", "NonNode": "NonNode", "MaxStack": 12}, tag="judge-clone")
@@ -53,6 +54,8 @@ def classify(outcomes, res):
     for out in outcomes:
         res.add_tlc(out["tlc"])
         res.replayed += out["n"]
+        if out.get("skipped"):
+            res.notes.append("%d vectors were not replayed after more than 70 mismatches in their chunk" % out["skipped"])
         per = res.extra.setdefault("copies_per_family_and_method", {})
         for k, v in out["per_how"].items():
             per[k] = per.get(k, 0) + v
